@@ -133,17 +133,18 @@ pub fn scoped_write<'a, L: RawLock + Lockable + ?Sized, R>(
 		// safety: we have the key
 		collection.raw_write();
 
-		// safety: we just locked this
-		let r = handle_unwind(
-			|| f(collection.data_mut()),
-			|| collection.raw_unlock_write(),
-		);
+		// safety: we just locked this. The guard is what unlocks the collection
+		//         again, on return and on unwind. If `f` unwinds, dropping it
+		//         also poisons every `Poisonable` inside the collection, just
+		//         like the guard returned by `lock` does.
+		let guard = collection.guard();
+		let r = f(collection.data_mut());
 
 		// this ensures the key is held long enough
 		drop(key);
 
-		// safety: we've locked already, and aren't using the data again
-		collection.raw_unlock_write();
+		// safety: we aren't using the data again
+		drop(guard);
 
 		r
 	}
@@ -160,17 +161,18 @@ pub fn scoped_try_write<'a, L: RawLock + Lockable + ?Sized, Key: Keyable, R>(
 			return Err(key);
 		}
 
-		// safety: we just locked this
-		let r = handle_unwind(
-			|| f(collection.data_mut()),
-			|| collection.raw_unlock_write(),
-		);
+		// safety: we just locked this. The guard is what unlocks the collection
+		//         again, on return and on unwind. If `f` unwinds, dropping it
+		//         also poisons every `Poisonable` inside the collection, just
+		//         like the guard returned by `lock` does.
+		let guard = collection.guard();
+		let r = f(collection.data_mut());
 
 		// this ensures the key is held long enough
 		drop(key);
 
-		// safety: we've locked already, and aren't using the data again
-		collection.raw_unlock_write();
+		// safety: we aren't using the data again
+		drop(guard);
 
 		Ok(r)
 	}
@@ -185,14 +187,18 @@ pub fn scoped_read<'a, L: RawLock + Sharable + ?Sized, R>(
 		// safety: we have the key
 		collection.raw_read();
 
-		// safety: we just locked this
-		let r = handle_unwind(|| f(collection.data_ref()), || collection.raw_unlock_read());
+		// safety: we just locked this. The guard is what unlocks the collection
+		//         again, on return and on unwind. If `f` unwinds, dropping it
+		//         also poisons every `Poisonable` inside the collection, just
+		//         like the guard returned by `read` does.
+		let guard = collection.read_guard();
+		let r = f(collection.data_ref());
 
 		// this ensures the key is held long enough
 		drop(key);
 
-		// safety: we've locked already, and aren't using the data again
-		collection.raw_unlock_read();
+		// safety: we aren't using the data again
+		drop(guard);
 
 		r
 	}
@@ -209,14 +215,18 @@ pub fn scoped_try_read<'a, L: RawLock + Sharable + ?Sized, Key: Keyable, R>(
 			return Err(key);
 		}
 
-		// safety: we just locked this
-		let r = handle_unwind(|| f(collection.data_ref()), || collection.raw_unlock_read());
+		// safety: we just locked this. The guard is what unlocks the collection
+		//         again, on return and on unwind. If `f` unwinds, dropping it
+		//         also poisons every `Poisonable` inside the collection, just
+		//         like the guard returned by `read` does.
+		let guard = collection.read_guard();
+		let r = f(collection.data_ref());
 
 		// this ensures the key is held long enough
 		drop(key);
 
-		// safety: we've locked already, and aren't using the data again
-		collection.raw_unlock_read();
+		// safety: we aren't using the data again
+		drop(guard);
 
 		Ok(r)
 	}
